@@ -188,6 +188,9 @@ def h_gcd(at, rng):
             cd, _ = cs(d)
             c.assume(cd > 0)     # |dec| < 90 (the poles themselves are outside the claim)
         sep = at.gcd(ra1, dec1, ra2, dec2)
+        # the second call forks on its own (mathematically equal) radicand: the two mixed branch pairs are infeasible but only
+        # provably so with the trig identities, so their feasibility queries are cut short (an `unknown` fork is abandoned)
+        c.solver.set('timeout', 4000)
         sep2 = at.gcd(ra2, dec2, ra1, dec1)
         out = {}
 
